@@ -11,6 +11,9 @@ import (
 	"path/filepath"
 	"sort"
 	"strings"
+	"sync"
+
+	"github.com/jf-tech/omniparser/idr"
 
 	"verifharness/cmd/c10/pipe"
 	"verifharness/vh"
@@ -121,12 +124,17 @@ func main() {
 		}
 	}
 
-	total := o.Count(400, 30000)
+	total := o.Count(350, 30000)
 	for c := 0; c < total; c++ {
 		f := fmts[r.Pick(len(fmts))]
 		env := pipe.Env{Header: r.Chance(0.5), Trailer: r.Chance(0.5), Ctx: "H1"}
 		var must []string
-		switch r.Pick(8) {
+		lateFail := false
+		switch r.Pick(10) {
+		case 7, 8:
+			// a record failing late (after the ancestor-anchored declarations were evaluated)
+			must = []string{"late-cast", "plain"}
+			lateFail = true
 		case 0:
 			must = []string{"identical-decls-anchoring"}
 		case 1:
@@ -144,8 +152,17 @@ func main() {
 		if env.Header && f.CtxField() != "" && r.Chance(0.5) {
 			extra = append(extra, f.CtxField())
 		}
-		if f.AncestorField() != "" && r.Chance(0.4) {
+		if f.AncestorField() != "" && (lateFail || r.Chance(0.4)) {
 			extra = append(extra, f.AncestorField())
+			if r.Chance(0.4) {
+				extra = append(extra, f.AncestorManyField(r.Between(12, 30)))
+			}
+		}
+		if (f.Name == "xml" || f.Name == "json") && r.Chance(0.25) {
+			env.Deep = true
+			if f.Name == "json" {
+				env.Header = false
+			}
 		}
 		if f.Name != "json" && f.Name != "xml" {
 			env.Ctx = ""
@@ -160,11 +177,15 @@ func main() {
 		var in []byte
 		var recs []pipe.Rec
 		kind := "records"
-		if r.Chance(0.7) || (f.Name == "json" && env.Header) {
+		if lateFail || env.Deep || r.Chance(0.7) || (f.Name == "json" && env.Header) {
 			n := r.Between(2, 7)
 			recs = make([]pipe.Rec, n)
 			for i := range recs {
 				recs[i] = pipe.GenRec(r, f, false)
+				if lateFail && i > 0 && i < n-1 && r.Chance(0.5) {
+					recs[i].B = "9z" // fails in zcast, the last field evaluated
+				}
+				recs[i] = f.Place(r, env, recs[i])
 			}
 			// equal records now and then: same content under different node IDs
 			if r.Chance(0.3) {
@@ -258,13 +279,110 @@ func main() {
 				break
 			}
 		}
+		if bad := pipe.CheckRetained(); len(bad) > 0 {
+			sum.Fail("a result slice returned by Transform.Read changed after later Reads: "+bad[0], cs, map[string]interface{}{"violations": bad})
+		}
+		if lateFail {
+			sum.Hist("late-failing-record-with-ancestor-declarations")
+		}
 		if !own.Equal(ts[0]) {
 			sum.Fail("harness ingester loop (memo on) differs from Transform.Read: the built-in ingester no longer is release-read-parse(fresh ParseCtx)-marshal",
 				cs, map[string]interface{}{"public_api": ts[0], "own_loop": own})
 		}
 		cw.Add(coqTranscripts(append(ts, own)), map[string]interface{}{"case": cs})
 	}
+	concurrentProbes(o, r, sum, fmts)
 	cw.Flush()
 	sum.CaseFiles = cw.Files
 	sum.Write(o)
+}
+
+// concurrentProbes: what makes the ID-keyed caches safe is that node IDs are unique process-wide,
+// also when several transforms run in different goroutines.  (1) IDs handed out to goroutines
+// creating and recycling nodes at the same time are pairwise distinct; (2) transforms with
+// javascript_with_context on the record node, run concurrently, give their sequential transcripts.
+func concurrentProbes(o *vh.Opts, r *vh.Rng, sum *vh.Summary, fmts []pipe.Fmt) {
+	pipe.Default()
+	const G, K = 8, 40000
+	vh.Current(o, map[string]interface{}{"probe": "concurrent node ID uniqueness", "goroutines": G, "acquisitions_each": K})
+	ids := make([][]int64, G)
+	var wg sync.WaitGroup
+	for g := 0; g < G; g++ {
+		wg.Add(1)
+		go func(g int) {
+			defer wg.Done()
+			out := make([]int64, 0, K)
+			for len(out) < K {
+				root := idr.CreateNode(idr.ElementNode, "p")
+				out = append(out, root.ID)
+				for j := 0; j < 6 && len(out) < K; j++ {
+					c := idr.CreateNode(idr.TextNode, "x")
+					out = append(out, c.ID)
+					idr.AddChild(root, c)
+				}
+				idr.RemoveAndReleaseTree(root)
+			}
+			ids[g] = out
+		}(g)
+	}
+	wg.Wait()
+	seen := make(map[int64]int, G*K)
+	dups := 0
+	var example int64
+	for g := range ids {
+		for _, id := range ids[g] {
+			if _, dup := seen[id]; dup {
+				dups++
+				example = id
+			}
+			seen[id] = g
+		}
+	}
+	sum.Hist("concurrent-id-probe")
+	if dups > 0 {
+		sum.Fail(fmt.Sprintf("node IDs handed out to concurrently running goroutines are not unique: %d duplicates among %d acquisitions (e.g. ID %d)", dups, G*K, example),
+			map[string]interface{}{"probe": "concurrent node ID uniqueness", "goroutines": G, "acquisitions_each": K}, nil)
+	}
+
+	// (2) concurrent transforms
+	f := fmts[1] // csv2
+	env := pipe.Env{Header: true}
+	schema, feats := f.SchemaWith(r, []string{"javascript_with_context", "plain"}, nil, env)
+	comp, err := pipe.Compile(schema)
+	if err != nil {
+		return
+	}
+	const W = 6
+	inputs := make([][]byte, W)
+	seq := make([]pipe.Transcript, W)
+	ext := pipe.GenExt(r.Pick)
+	for w := 0; w < W; w++ {
+		recs := make([]pipe.Rec, 400)
+		for i := range recs {
+			recs[i] = pipe.GenRec(r, f, true)
+			recs[i].A = fmt.Sprintf("w%d-%d", w, i)
+		}
+		inputs[w] = f.Render(env, recs)
+		seq[w] = comp.RunReal(inputs[w], ext)
+	}
+	_ = pipe.CheckRetained()
+	vh.Current(o, map[string]interface{}{"probe": "concurrent transforms", "schema": schema, "workers": W})
+	par := make([]pipe.Transcript, W)
+	for w := 0; w < W; w++ {
+		wg.Add(1)
+		go func(w int) {
+			defer wg.Done()
+			par[w] = comp.RunUnretained(inputs[w], ext)
+		}(w)
+	}
+	wg.Wait()
+	sum.Hist("concurrent-transforms-probe")
+	for w := 0; w < W; w++ {
+		if !par[w].Equal(seq[w]) {
+			i := pipe.FirstDiff(par[w], seq[w])
+			sum.Fail(fmt.Sprintf("a transform run concurrently with %d others differs from its sequential transcript (first difference at result %d)", W-1, i),
+				pipe.NewCase(f.Name, schema, inputs[w]), map[string]interface{}{"features": feats.Keys(), "worker": w})
+			break
+		}
+	}
 }
